@@ -30,11 +30,13 @@ const (
 	KCover
 	KAssertCall // call-site assertion on a callee: "atcall KEY requires EXPR"
 	KReturns    // "returns EXPR": the single result is exactly EXPR (used as a definition at call sites)
+	KGhostSet   // "ghostset VAR TYPE = EXPR [if COND]": ghost assignment performed when the function returns
+	KObserve    // "observe NAME EXPR": a value reported from the solver's model for replay drivers
 	KValInv     // invariant of every value of a struct type stored in a map: "valinv T (v T) :: EXPR"
 )
 
 func (k ClauseKind) String() string {
-	return [...]string{"requires", "ensures", "invariant", "modifies", "cover", "atcall", "returns", "valinv"}[k]
+	return [...]string{"requires", "ensures", "invariant", "modifies", "cover", "atcall", "returns", "ghostset", "observe", "valinv"}[k]
 }
 
 type Clause struct {
@@ -50,6 +52,7 @@ type Clause struct {
 	// AtCall: callee key this clause attaches to (KAssertCall)
 	Callee    string
 	Overrides string // label of the callee clause this call-site clause replaces
+	Cond      string // ghostset: condition
 	// Free: skip assumption of this ensures at call sites unless tag selected (unused)
 }
 
@@ -102,7 +105,7 @@ type PkgSpec struct {
 	InlineExt []string
 }
 
-var kwRe = regexp.MustCompile(`^(requires|ensures|returns|modifies|cover|loop|results|nopanic|inline|unroll|atcall|handler|intmode)\b`)
+var kwRe = regexp.MustCompile(`^(requires|ensures|returns|observe|ghostset|modifies|cover|loop|results|nopanic|inline|unroll|atcall|handler|intmode)\b`)
 
 // readSpecLines extracts the //@ lines of a file ("\" continues a line).
 func readSpecLines(path string) ([]string, []int, error) {
@@ -309,6 +312,22 @@ func parseSpecFile(path string, ps *PkgSpec, trustedFile bool) error {
 				cur.NoPanic = true
 				_, _, tags := splitLabelTags(" " + rest)
 				cur.NoPanicT = tags
+			case "ghostset":
+				// ghostset VAR TYPE = EXPR [if COND]
+				eqi := strings.Index(rest, " = ")
+				f := strings.Fields(rest[:eqi])
+				val := strings.TrimSpace(rest[eqi+3:])
+				cond := "true"
+				if ci := topLevelIndex(val, " if "); ci >= 0 {
+					cond = strings.TrimSpace(val[ci+4:])
+					val = strings.TrimSpace(val[:ci])
+				}
+				cur.Clauses = append(cur.Clauses, &Clause{Kind: KGhostSet, Label: f[0], Callee: strings.Join(f[1:], " "), Text: val, Cond: cond, File: path, Line: ln})
+			case "observe":
+				// observe NAME TYPE = EXPR
+				eqi := strings.Index(rest, " = ")
+				f := strings.Fields(rest[:eqi])
+				cur.Clauses = append(cur.Clauses, &Clause{Kind: KObserve, Label: f[0], Callee: strings.Join(f[1:], " "), Text: strings.TrimSpace(rest[eqi+3:]), File: path, Line: ln})
 			case "inline":
 				cur.Inline = rest
 			case "intmode":
@@ -494,9 +513,15 @@ func splitTop(s string, sep byte) []string {
 
 var quantRe = regexp.MustCompile(`^\s*(forall|exists|forallIdx|existsIdx)\s+([A-Za-z_][A-Za-z0-9_]*)\s+([^:]+?)\s*::`)
 
+var quant2Re = regexp.MustCompile(`^\s*(forall|exists)\s+([A-Za-z_][A-Za-z0-9_]*)\s+([^:,]+?)\s*,\s*([A-Za-z_][A-Za-z0-9_]*)\s+([^:,]+?)\s*::`)
+
 // conv rewrites  a ==> b,  a <==> b,  (forall x T :: e),  (exists x T :: e)  into Go calls.
 func conv(s string) string {
 	s = strings.TrimSpace(s)
+	if m := quant2Re.FindStringSubmatchIndex(s); m != nil {
+		q, v1, t1, v2, t2 := s[m[2]:m[3]], s[m[4]:m[5]], s[m[6]:m[7]], s[m[8]:m[9]], s[m[10]:m[11]]
+		return fmt.Sprintf("%s2(func(%s %s, %s %s) bool { return %s })", q, v1, t1, v2, t2, conv(s[m[1]:]))
+	}
 	if m := quantRe.FindStringSubmatchIndex(s); m != nil {
 		q, v, ty := s[m[2]:m[3]], s[m[4]:m[5]], s[m[6]:m[7]]
 		body := s[m[1]:]
@@ -525,6 +550,9 @@ func conv(s string) string {
 				sep = ';'
 			}
 			parts := splitTop(inner, sep)
+			if c == '(' && (quantRe.MatchString(inner) || quant2Re.MatchString(inner)) {
+				parts = []string{inner}
+			}
 			b.WriteByte(c)
 			for pi, p := range parts {
 				if pi > 0 {
@@ -674,6 +702,8 @@ func implies(a, b bool) bool { panic("ghost") }
 func iff(a, b bool) bool { panic("ghost") }
 func forall[T any](f func(T) bool) bool { panic("ghost") }
 func exists[T any](f func(T) bool) bool { panic("ghost") }
+func forall2[T any, U any](f func(T, U) bool) bool { panic("ghost") }
+func exists2[T any, U any](f func(T, U) bool) bool { panic("ghost") }
 func forallIdx(f func(int) bool) bool { panic("ghost") }
 func existsIdx(f func(int) bool) bool { panic("ghost") }
 func old[T any](x T) T { panic("ghost") }
@@ -689,6 +719,8 @@ func strIndexOf(s, sub string) int { panic("ghost") }
 func strInRe(s string, re string) bool { panic("ghost") }
 func strReplaceAll(s, a, b string) string { panic("ghost") }
 func strToLower(s string) string { panic("ghost") }
+func strTrimPrefix(s, p string) string { panic("ghost") }
+func strTrimSuffix(s, p string) string { panic("ghost") }
 func strToUpper(s string) string { panic("ghost") }
 func bytesToStr(b []byte) string { panic("ghost") }
 func nowNanos() int64 { panic("ghost") }
@@ -701,6 +733,7 @@ func dynTypeIs(x any, name string) bool { panic("ghost") }
 func refOf(x any) uintptr { panic("ghost") }
 func fresh(x any) bool { panic("ghost") }
 func fmtLiteralPrefix(format string) string { panic("ghost") }
+func fmtLiteralAfterFirstVerb(format string) string { panic("ghost") }
 func httpStatus(w any) int { panic("ghost") }
 `
 
@@ -867,6 +900,12 @@ func (ps *PkgSpec) generate(trustedDir string) error {
 				}
 			case KEnsures, KCover:
 				fmt.Fprintf(body, "func %s(%s) bool { return %s }\n", c.GoName, join(params, resDecl), conv(c.Text))
+			case KObserve:
+				fmt.Fprintf(body, "func %s(%s) %s { return %s }\n", c.GoName, join(params, resDecl), c.Callee, conv(c.Text))
+			case KGhostSet:
+				fmt.Fprintf(body, "func %s(%s) %s { return %s }\n", c.GoName, join(params, resDecl), c.Callee, conv(c.Text))
+				fmt.Fprintf(body, "func %s_cond(%s) bool { return %s }\n", c.GoName, join(params, resDecl), conv(c.Cond))
+				fmt.Fprintf(body, "func %s_var() *%s { return &%s }\n", c.GoName, c.Callee, c.Label)
 			case KReturns:
 				rt := strings.TrimSpace(resDecl)
 				if i := strings.Index(rt, " "); i > 0 {
